@@ -13,8 +13,7 @@ import z3
 
 # --------------------------------------------------------------------------- context
 
-class Cut(BaseException):
-    """Ends a path on purpose (not catchable by the repo's `except Exception`)."""
+from .cut import Cut
 
 class Infeasible(BaseException):
     """Path condition refuted by the relaxation."""
@@ -59,9 +58,9 @@ class Ctx:
         return z3.Real(nm) if sort == 'R' else z3.Int(nm)
     # -- decisions
     def decide(self, cond, note=None):
-        cond = z3.simplify(cond)
-        if z3.is_true(cond): return True
-        if z3.is_false(cond): return False
+        sc = z3.simplify(cond)          # only to detect trivial decisions; the raw term is kept
+        if z3.is_true(sc): return True  # (its sub-term structure is needed for abstraction)
+        if z3.is_false(sc): return False
         if self.pos < len(self.prefix):
             b = self.prefix[self.pos]
         else:
@@ -354,7 +353,7 @@ def sym_sqrt(v):
         key = ('const', str(fr))
         if key not in CTX.sqrt_defs:
             r = z3.Real('sq!c%s' % str(fr).replace('/', '_'))
-            CTX.sqrt_defs[key] = (r, a)
+            CTX.sqrt_defs[key] = (r, a, a)
             f = _math.sqrt(float(fr))
             lo, hi = fractions.Fraction(f*(1 - 1e-12)), fractions.Fraction(f*(1 + 1e-12))
             CTX.assume(r > T(lo)); CTX.assume(r < T(hi))
@@ -365,9 +364,10 @@ def sym_sqrt(v):
     key = a.get_id()
     if key not in CTX.sqrt_defs:
         r = z3.Real('sq!%d' % len(CTX.sqrt_defs))
-        CTX.sqrt_defs[key] = (r, a)
+        raw = T(v)                      # unsimplified: keeps sub-term structure for abstraction
+        CTX.sqrt_defs[key] = (r, raw, a)   # `a` is stored to keep the AST (and hence its id) alive
         CTX.assume(r >= 0)
-        CTX.assume(r * r == a)
+        CTX.assume(r * r == raw)
     return SymReal(CTX.sqrt_defs[key][0])
 
 def sym_max(*a, **kw):
@@ -440,19 +440,33 @@ def explore(run_one, pre=(), max_paths=5000, on_path=None):
 
 # --------------------------------------------------------------------------- solving helpers
 
+_CONSTS_CACHE = {}
 def consts_of(f, acc=None):
-    out = set() if acc is None else acc
-    seen = set(); st = [f]
-    while st:
-        e = st.pop()
-        i = e.get_id()
-        if i in seen: continue
-        seen.add(i)
-        if z3.is_const(e) and e.decl().kind() == z3.Z3_OP_UNINTERPRETED:
-            out.add(str(e))
-        else:
-            st.extend(e.children())
-    return out
+    """names of the uninterpreted constants of f (cached per top-level term while it is alive)"""
+    key = f.get_id()
+    hit = _CONSTS_CACHE.get(key)
+    if hit is not None and hit[0].eq(f):
+        res = hit[1]
+    else:
+        res = set()
+        seen = set(); st = [f]
+        while st:
+            e = st.pop()
+            i = e.get_id()
+            if i in seen: continue
+            seen.add(i)
+            n = e.num_args()
+            if n == 0:
+                if e.decl().kind() == z3.Z3_OP_UNINTERPRETED:
+                    res.add(e.decl().name())
+            else:
+                for j in range(n): st.append(e.arg(j))
+        res = frozenset(res)
+        if len(_CONSTS_CACHE) > 20000: _CONSTS_CACHE.clear()
+        _CONSTS_CACHE[key] = (f, res)
+    if acc is None: return set(res)
+    acc |= res
+    return acc
 
 def slice_pc(pc, goal_terms, extra_allowed=()):
     """Keep the conjuncts of pc whose constants all lie in the cone of the goal:
@@ -515,3 +529,21 @@ def model_to_dict(m):
         except Exception:
             out[d.name()] = str(v)
     return out
+
+
+def slice_up(pc, allowed_base):
+    """Keep conjuncts whose constants lie in `allowed`, where allowed starts from
+    allowed_base and grows by every sq!/osq! symbol whose defining constraints mention only
+    allowed names (definitions closed upward).  Sound for unsat (drops hypotheses)."""
+    allowed = set(allowed_base)
+    cs = [(f, consts_of(f)) for f in pc]
+    changed = True
+    while changed:
+        changed = False
+        for f, c in cs:
+            extra = c - allowed
+            if len(extra) == 1:
+                n = next(iter(extra))
+                if (n.startswith('sq!') or n.startswith('osq!')) and z3.is_eq(f) and _defines(f, n):
+                    allowed.add(n); changed = True
+    return [f for f, c in cs if c <= allowed], allowed
